@@ -12,7 +12,8 @@ class C40(vlib.Spec):
     theorems = ["C40_raft_term_monotone", "C40_raft_vote_once_per_term", "C40_raft_commit_monotone",
                 "C40_raft_election_safety", "C40_raft_leader_append_only", "C40_raft_sms_partial", "C40_raft_log_wf",
                 "C40_raft_committed_prefix_stable", "C40_raft_leader_commit_rule", "C40_raft_log_matching",
-                "C40_raft_sms_from_leader_completeness", "C40_paxos_safety", "C40_paxos_recommit_obeys_pick"]
+                "C40_raft_sms_from_leader_completeness", "C40_raft_vote_restriction", "C40_paxos_safety",
+                "C40_paxos_recommit_obeys_pick"]
     crate, group, binary = "h_raft", "hydro", "h_raft"
     imports = "From HV Require Import Proto.RaftNet.\nFrom HV Require Proto.PaxosCheck."
     level = "other"
